@@ -61,7 +61,7 @@ def _build(case):
     import autoarray as aa
     m = np.asarray(case["mask"], dtype=bool)
     k = np.asarray(case["kernel"], dtype=float)
-    mask = aa.Mask2D(mask=m.copy(), pixel_scales=1.0)
+    mask = aa.Mask2D(mask=gens.vary_layout(m), pixel_scales=1.0)
     kernel = aa.Kernel2D.no_mask(values=k.copy(), pixel_scales=1.0, normalize=False)
     return aa, m, k, mask, kernel
 
@@ -267,7 +267,7 @@ def body_reject(case, ctx):
     k = np.asarray(case["kernel"], dtype=float)
     ctx.label("reject:%s" % case["kind"])
     ctx.nt(True)
-    mask = aa.Mask2D(mask=m.copy(), pixel_scales=1.0)
+    mask = aa.Mask2D(mask=gens.vary_layout(m), pixel_scales=1.0)
     kernel = aa.Kernel2D.no_mask(values=k.copy(), pixel_scales=1.0, normalize=False)
     if case["kind"] == "even":
         try:
@@ -319,7 +319,7 @@ def body_simulator(case, ctx):
     kn = k / k.sum()
     tol = 1e-9 * (1.0 + float(native.max()) + case["background_sky_level"])
     ctx.close(np.asarray(dataset.data.native), refconv.full_convolve(native, kn), "simulator/data", atol=tol, what="noise-free simulated data vs whole-frame convolution")
-    mask = aa.Mask2D(mask=m.copy(), pixel_scales=ps)
+    mask = aa.Mask2D(mask=gens.vary_layout(m), pixel_scales=ps)
     masked = dataset.apply_mask(mask=mask)
     ctx.check(np.array_equal(np.asarray(masked.mask), m), "simulator/unexpected-padding", "apply_mask changed the mask although the footprint stays inside the frame")
     _, _, blur = refconv.operators(m, kn)
@@ -357,7 +357,7 @@ def body_large(case, ctx):
     native = (((yy * 7 + xx * 13 + case["vseed"] * 5) % 9) - 4).astype(float)
     k = ((np.arange(kh * kw).reshape(kh, kw) * 3 + case["vseed"]) % 5 - 1).astype(float)
     k[hy, hx] = 2.0
-    mask = aa.Mask2D(mask=m.copy(), pixel_scales=1.0)
+    mask = aa.Mask2D(mask=gens.vary_layout(m), pixel_scales=1.0)
     kernel = aa.Kernel2D.no_mask(values=k.copy(), pixel_scales=1.0, normalize=False)
     convolver = ctx.impl("large/convolver/construct", aa.Convolver, mask=mask, kernel=kernel)
     blur, _ = refconv.blurring_region_fast(m, (kh, kw))
